@@ -1064,12 +1064,12 @@ func HandleCopy(deps ServerDeps, conn net.Conn, tag string, parts []string, stat
 	}
 	defer func() { _ = tx.Rollback() }()
 
-	// Get the next UID for destination mailbox
+	// Get the next UID for destination mailbox from its UID counter, so that a
+	// UID is never handed out twice (RFC 3501 section 2.3.1.1)
 	var nextUID int64
 	err = tx.QueryRow(`
-		SELECT COALESCE(MAX(uid), 0) + 1
-		FROM message_mailbox
-		WHERE mailbox_id = ?
+		SELECT uid_next FROM mailboxes
+		WHERE id = ?
 	`, destMailboxID).Scan(&nextUID)
 
 	if err != nil {
@@ -1120,6 +1120,13 @@ func HandleCopy(deps ServerDeps, conn net.Conn, tag string, parts []string, stat
 		nextUID++
 	}
 
+	// Advance the destination's UID counter past the UIDs just assigned
+	_, err = tx.Exec("UPDATE mailboxes SET uid_next = ? WHERE id = ?", nextUID, destMailboxID)
+	if err != nil {
+		deps.SendResponse(conn, fmt.Sprintf("%s NO COPY failed: %v", tag, err))
+		return
+	}
+
 	// Commit transaction
 	err = tx.Commit()
 	if err != nil {
@@ -1156,12 +1163,12 @@ func MoveMessageToMailbox(userDB *sql.DB, messageID int64, sourceMailboxID int64
 	}
 	defer func() { _ = tx.Rollback() }()
 
-	// Get the next UID for destination mailbox
+	// Get the next UID for destination mailbox from its UID counter, so that a
+	// UID is never handed out twice (RFC 3501 section 2.3.1.1)
 	var nextUID int64
 	err = tx.QueryRow(`
-		SELECT COALESCE(MAX(uid), 0) + 1
-		FROM message_mailbox
-		WHERE mailbox_id = ?
+		SELECT uid_next FROM mailboxes
+		WHERE id = ?
 	`, destMailboxID).Scan(&nextUID)
 
 	if err != nil {
@@ -1176,6 +1183,12 @@ func MoveMessageToMailbox(userDB *sql.DB, messageID int64, sourceMailboxID int64
 
 	if err != nil {
 		return fmt.Errorf("failed to insert into destination: %w", err)
+	}
+
+	// Advance the destination's UID counter past the UID just assigned
+	_, err = tx.Exec("UPDATE mailboxes SET uid_next = ? WHERE id = ?", nextUID+1, destMailboxID)
+	if err != nil {
+		return fmt.Errorf("failed to advance UID counter: %w", err)
 	}
 
 	// Delete message from source mailbox
